@@ -62,6 +62,9 @@ pub fn schema(code: u16) -> Option<Vec<F>> {
 }
 
 /// how names are written
+/// when set, the IPSECKEY gateway name is encoded like any other name (pointers allowed)
+pub static COMPRESS_GATEWAY: std::sync::atomic::AtomicBool = std::sync::atomic::AtomicBool::new(false);
+
 pub enum Compress<'a> {
     Never,
     /// point to an earlier occurrence of a suffix with this probability (out of 8), anywhere
@@ -182,7 +185,10 @@ fn rdata(e: &mut Enc, t: &mut Toks) -> (u16, Option<u16>) {
                 "g6" => { e.int(1, prec); e.int(1, 2); e.int(1, alg); let a = t.num(); e.int(16, a) }
                 "gn" => { e.int(1, prec); e.int(1, 3); e.int(1, alg); let n = t.name();
                     // RFC 4025: the gateway name MUST NOT be compressed
-                    let saved = std::mem::replace(&mut e.mode, Compress::Never); e.name(&n); e.mode = saved; }
+                    // (senders must not; a receiver's name decoder still follows a pointer there, and the
+                    // hostile-input generators ask for one through COMPRESS_GATEWAY)
+                    if COMPRESS_GATEWAY.load(std::sync::atomic::Ordering::Relaxed) { e.name(&n); }
+                    else { let saved = std::mem::replace(&mut e.mode, Compress::Never); e.name(&n); e.mode = saved; } }
                 _ => panic!("gateway"),
             }
             let key = t.bytes();
